@@ -348,10 +348,22 @@ def _subterms(e):
         todo.extend(x.children())
 
 
+def g_forward_consistency(tier, seed):
+    """O3: the forward conversion that the round trips compose with is the same Karney-Krueger map (shares C01's harness)"""
+    from checks import c01
+    res = c01.check_case(('sym', 'sym', 'sym', 'float'), tier, seed, PID=PID, oracle_mod='oracles.c01')
+    for r in res:
+        r['ob'] = 'O3'
+        r['name'] = 'forward map used in the round trips: ' + r['name']
+        if 'key' in r:
+            r['key'] = 'O3:forward:' + r['key']
+    return res
+
+
 def groups(tier):
     cases = CASES_QUICK if tier == 'quick' else CASES_THOROUGH
     gs = [('coefficients', g_coefficients), ('validation', g_validation), ('mirror', g_mirror), ('standalone', g_standalone),
-          ('rounding_budget', g_rounding_budget)]
+          ('rounding_budget', g_rounding_budget), ('forward_consistency', g_forward_consistency)]
     for c in cases:
         gs.append((('case_%s_%s_%s_%s' % tuple(str(x) for x in c)), _mk_group(c)))
     return gs
